@@ -74,7 +74,52 @@ def load_units():
     return units
 
 
+_EXPANDED = {}
+
+
+def expanded_source():
+    """The compiler's own macro expansion of the crate (`cargo +nightly rustc --lib -- -Zunpretty=expanded`),
+    used for the macro_rules-generated tuple impls.  Cached by the hash of Cargo.toml + src/**/*.rs."""
+    import hashlib
+    import subprocess
+    if REPO in _EXPANDED:
+        return _EXPANDED[REPO]
+    h = hashlib.sha256()
+    for root, dirs, files in sorted(os.walk(os.path.join(REPO, 'src'))):
+        dirs.sort()
+        for fn in sorted(files):
+            if fn.endswith('.rs'):
+                fp = os.path.join(root, fn)
+                h.update(fp.encode())
+                h.update(open(fp, 'rb').read())
+    ct = os.path.join(REPO, 'Cargo.toml')
+    if not os.path.exists(ct):
+        raise ExtractError('expanded source needs a full crate (Cargo.toml missing in %s)' % REPO)
+    h.update(open(ct, 'rb').read())
+    cdir = '/var/tmp/vx-expand'
+    os.makedirs(cdir, exist_ok=True)
+    cf = os.path.join(cdir, h.hexdigest()[:24] + '.rs')
+    if not os.path.exists(cf):
+        env = dict(os.environ, CARGO_TARGET_DIR='/var/tmp/vx-expand/target', CARGO_NET_OFFLINE='true')
+        p = subprocess.run(['cargo', '+nightly', 'rustc', '--lib', '--offline', '--', '-Zunpretty=expanded'],
+                           cwd=REPO, env=env, capture_output=True, text=True, timeout=1200)
+        if p.returncode != 0 or len(p.stdout) < 1000:
+            raise ExtractError('macro expansion failed (the tree does not compile?): ' + p.stderr[-800:])
+        tmp = cf + '.tmp%d' % os.getpid()
+        with open(tmp, 'w') as f:
+            f.write(p.stdout)
+        os.replace(tmp, cf)
+        # keep the cache small
+        olds = sorted((os.path.getmtime(os.path.join(cdir, x)), x) for x in os.listdir(cdir) if x.endswith('.rs'))
+        for _, x in olds[:-6]:
+            os.remove(os.path.join(cdir, x))
+    _EXPANDED[REPO] = open(cf).read()
+    return _EXPANDED[REPO]
+
+
 def _read_repo(rel):
+    if rel == 'expanded':
+        return expanded_source()
     p = os.path.join(REPO, rel)
     if not os.path.exists(p):
         raise ExtractError('source file missing: %s' % rel)
@@ -259,9 +304,14 @@ def gen_fn(fs, cfg, log, vac=False):
     src = _read_repo(fs.file)
     within = None
     if fs.impl_re:
-        a, ob, e = rustlex.find_item(src, fs.impl_re)
+        # whitespace in the header pattern matches any whitespace (the expansion is re-wrapped by rustc)
+        a, ob, e = rustlex.find_item(src, r'\s*'.join(fs.impl_re.split()))
         within = (a, e)
-    f = rustlex.find_fn(src, fs.name, within)
+    fname, nth = fs.name, None
+    if '#' in fname:
+        fname, k = fname.split('#')
+        nth = int(k)
+    f = rustlex.find_fn(src, fname, within, nth)
     where = '%s::%s' % (fs.file, fs.name)
     srcline = _lineno(src, f['start'])
     sig_src = re.sub(r'\s+', ' ', rustlex.strip_comments(f['sig']))
